@@ -40,7 +40,7 @@ def random_items(seed, n):
 def run(ctx):
     ctx.mc("text", MODULE, "MC_Linkify.cfg", timeout=ctx.pick(900, 1500), overrides=ctx.pick({"MaxFree": 1, "Shortens": "{TRUE}", "RequireProtos": "{FALSE}"}, {"MaxFree": 2}),
            required_actions=["Extend"])
-    ov = ctx.pick({"Level": 1, "MaxFree": 2, "Perms": "{1}", "Extras": "{0}"},
+    ov = ctx.pick({"Level": 1, "MaxFree": 2, "Perms": "{1}", "Extras": "{0}", "RequireProtos": "{FALSE}"},   # rp=True: random + thorough
                   {"Level": 2, "MaxFree": 3, "Perms": "{1, 3}", "Extras": "{0, 2}"})
     states = ctx.gen_states("text", MODULE, "Gen_Linkify.cfg", timeout=ctx.pick(900, 1500), overrides=ov)
     paths, rel_items = td.paths_from_states(states)
